@@ -56,41 +56,71 @@ type engineOpts struct {
 	recoveryType table.SnapshotRecoveryType
 	logCache     int
 	applied      func(table string, rev uint64)
+	// leader-side log compaction (0: dragonboat defaults)
+	snapshotEntries    uint64
+	compactionOverhead uint64
+}
+
+// engineState is what a restart of the same node needs: its file systems and its ports.
+type engineState struct {
+	fs      lvfs.FS
+	tableFS pvfs.FS
+	rp, gp  int
 }
 
 // newEngine starts a real single-node storage.Engine on in-memory file systems and loopback ports.
 func newEngine(o engineOpts) *storage.Engine {
-	var e *storage.Engine
+	e, _ := newEngineState(o, nil)
+	return e
+}
+
+// newEngineState starts a fresh node (st == nil; file systems and ports are picked, again on every
+// failed attempt: a free port may be taken by someone else in between, and a failed start leaves its
+// listeners behind) or restarts the node described by st.
+func newEngineState(o engineOpts, st *engineState) (*storage.Engine, *engineState) {
 	var err error
-	for attempt := 0; attempt < 5; attempt++ { // a free port may be taken by someone else in between
-		rp, gp := freePort(), freePort()
+	for attempt := 0; attempt < 8; attempt++ {
+		cur := st
+		if cur == nil {
+			cur = &engineState{fs: lvfs.NewMem(), tableFS: pvfs.NewMem(), rp: freePort(), gp: freePort()}
+		} else {
+			// Engine.Close leaves the gossip listener of the previous incarnation open: the raft address has
+			// to stay, the gossip address need not
+			cur.gp = freePort()
+		}
 		cfg := storage.Config{
 			Log:            zap.NewNop().Sugar(),
 			NodeID:         1,
-			InitialMembers: map[uint64]string{1: fmt.Sprintf("127.0.0.1:%d", rp)},
+			InitialMembers: map[uint64]string{1: fmt.Sprintf("127.0.0.1:%d", cur.rp)},
 			WALDir:         "/wal",
 			NodeHostDir:    "/nh",
 			RTTMillisecond: 5,
-			RaftAddress:    fmt.Sprintf("127.0.0.1:%d", rp),
-			Gossip:         storage.GossipConfig{BindAddress: fmt.Sprintf("127.0.0.1:%d", gp), InitialMembers: []string{fmt.Sprintf("127.0.0.1:%d", gp)}},
-			Table:          storage.TableConfig{FS: pvfs.NewMem(), TableCacheSize: 1024, ElectionRTT: 10, HeartbeatRTT: 1, MaxInMemLogSize: o.maxInMem, RecoveryType: o.recoveryType, AppliedIndexListener: o.applied},
-			Meta:           storage.MetaConfig{ElectionRTT: 10, HeartbeatRTT: 1},
-			FS:             lvfs.NewMem(),
-			LogCacheSize:   o.logCache,
+			RaftAddress:    fmt.Sprintf("127.0.0.1:%d", cur.rp),
+			Gossip:         storage.GossipConfig{BindAddress: fmt.Sprintf("127.0.0.1:%d", cur.gp), InitialMembers: []string{fmt.Sprintf("127.0.0.1:%d", cur.gp)}},
+			Table: storage.TableConfig{FS: cur.tableFS, TableCacheSize: 1024, ElectionRTT: 10, HeartbeatRTT: 1, MaxInMemLogSize: o.maxInMem, RecoveryType: o.recoveryType, AppliedIndexListener: o.applied,
+				SnapshotEntries: o.snapshotEntries, CompactionOverhead: o.compactionOverhead},
+			Meta:         storage.MetaConfig{ElectionRTT: 10, HeartbeatRTT: 1},
+			FS:           cur.fs,
+			LogCacheSize: o.logCache,
 		}
+		var e *storage.Engine
 		e, err = storage.New(cfg)
 		if err != nil {
+			time.Sleep(300 * time.Millisecond)
 			continue
 		}
+		// production reconciles the table shards every 30 s; a restarted node would sit idle that long
+		e.Manager.VerifSetIntervals(1500*time.Millisecond, 30*time.Second) // (Restore waits for a leader for twice this period, in 500 ms steps)
 		if err = e.Start(); err != nil {
 			_ = e.Close()
+			time.Sleep(300 * time.Millisecond)
 			continue
 		}
 		ctx, cancel := context.WithTimeout(context.Background(), 30*time.Second)
 		err = e.WaitUntilReady(ctx)
 		cancel()
 		if err == nil {
-			return e
+			return e, cur
 		}
 		_ = e.Close()
 	}
@@ -349,7 +379,7 @@ func hRestore(dir string) {
 			conn, closeAPI := apiOverBufconn(e)
 			bdir, err := os.MkdirTemp("", "verif-backup-*")
 			must(err)
-			before, err := readAll(e, "src1")
+			before, err := readAll(e, "src0")
 			must(err)
 			b := &backup.Backup{Conn: conn, Dir: bdir, Timeout: 2 * time.Minute}
 			_, err = b.Backup()
@@ -359,8 +389,8 @@ func hRestore(dir string) {
 			} else if err := (&backup.Backup{Conn: conn, Dir: bdir, Timeout: 2 * time.Minute}).Restore(); err != nil {
 				ans = "err restore"
 			} else {
-				waitTable(e, "src1")
-				after, err := readAll(e, "src1")
+				waitTable(e, "src0")
+				after, err := readAll(e, "src0")
 				if err != nil || pairsDigest(after) != pairsDigest(before) {
 					ans = "err content-differs"
 				}
@@ -406,7 +436,8 @@ func hRestore(dir string) {
 			_, err := e.CreateTable("live")
 			must(err)
 			waitTable(e, "live")
-			base := genContent(r, 20, false, 500)
+			// large enough for the stream to take a while: several writes land while it is being produced
+			base := genContent(r, 1500, false, 1500)
 			putAll(e, "live", base)
 			type wr struct {
 				k, v []byte
@@ -437,7 +468,13 @@ func hRestore(dir string) {
 				}
 			}()
 			time.Sleep(20 * time.Millisecond)
+			mu.Lock()
+			w0 := len(writes)
+			mu.Unlock()
 			path, declared := streamToFile(e, "live", true)
+			mu.Lock()
+			out.Stats["pit_writes_during_stream"] += len(writes) - w0
+			mu.Unlock()
 			time.Sleep(10 * time.Millisecond)
 			close(stop)
 			wg.Wait()
